@@ -18,6 +18,7 @@ import (
 	badger "github.com/dgraph-io/badger/v4"
 	"github.com/dgraph-io/badger/v4/options"
 	"github.com/dgraph-io/badger/v4/vhook"
+	"github.com/dgraph-io/badger/v4/y"
 )
 
 // RunStats is what one run contributes to the evidence.
@@ -42,6 +43,7 @@ type txnState struct {
 	reads           map[string]bool // conflict-tracked read keys
 	beginStep       uint64
 	nCommitsAtBegin int
+	held            *heldItem
 }
 
 type pendingCommit struct {
@@ -103,6 +105,10 @@ type Run struct {
 	discardTs     uint64 // managed mode: highest value passed to SetDiscardTs
 	usedTs        map[uint64]bool
 	pendingVerify []string
+	gcMoved       map[string]map[uint64]bool // versions written back by a value-log GC rewrite
+	droppedMarkers map[string][]uint64        // delete/expired markers discarded by compactions
+	drops         []*dropRec
+	dropsActive   int
 	maxDiscardTs  uint64 // highest discard watermark any compaction used so far
 	compactions   int
 }
@@ -125,7 +131,7 @@ func (r *Run) violate(props []string, rule, format string, args ...interface{}) 
 	if r.viol != nil {
 		return
 	}
-	r.viol = &Violation{Props: props, Rule: rule, Msg: fmt.Sprintf(format, args...), Step: r.e.Steps}
+	r.viol = &Violation{Props: props, Rule: rule, Msg: r.tagKnownPatterns(fmt.Sprintf(format, args...)), Step: r.e.Steps}
 	r.abort = true
 }
 
@@ -134,8 +140,24 @@ func (r *Run) violateLocked(props []string, rule, format string, args ...interfa
 	if r.viol != nil {
 		return
 	}
-	r.viol = &Violation{Props: props, Rule: rule, Msg: fmt.Sprintf(format, args...), Step: r.e.Steps}
+	r.viol = &Violation{Props: props, Rule: rule, Msg: r.tagKnownPatterns(fmt.Sprintf(format, args...)), Step: r.e.Steps}
 	r.abort = true
+}
+
+// tagKnownPatterns (r.mu held) appends a tag to a violation message when the
+// event trace shows a specific, recorded cause; known_findings.jsonl matches on
+// the tag, so that any other cause of the same symptom is still reported.
+func (r *Run) tagKnownPatterns(msg string) string {
+	for k, vers := range r.gcMoved {
+		for v := range vers {
+			for _, t := range r.droppedMarkers[k] {
+				if t > v && strings.Contains(msg, fmt.Sprintf("%q@%d", k, v)) || t > v && strings.Contains(msg, fmt.Sprintf("%q)", k)) && strings.Contains(msg, fmt.Sprintf("ver=%d ", v)) {
+					return msg + fmt.Sprintf(" [pattern: value-log GC wrote back %q@%d although a compaction had discarded the delete marker %q@%d that shadowed it]", k, v, k, t)
+				}
+			}
+		}
+	}
+	return msg
 }
 
 func (r *Run) aborted() bool {
@@ -260,6 +282,7 @@ func (r *Run) onEvent(gid int64, kind string, a, b uint64, key, val []byte) {
 	case "commitFailed":
 		r.mu.Lock()
 		r.model.FailCommit(a)
+		delete(r.inFlight, a) // nothing of it will be applied
 		r.mu.Unlock()
 	case "commitDone":
 		r.mu.Lock()
@@ -331,7 +354,18 @@ func (r *Run) onEvent(gid int64, kind string, a, b uint64, key, val []byte) {
 		}
 	case "compact.sub":
 		r.logf("compaction %s", key)
+	case "gc.moved":
+		r.mu.Lock()
+		if r.gcMoved[string(key)] == nil {
+			r.gcMoved[string(key)] = map[uint64]bool{}
+		}
+		r.gcMoved[string(key)][a] = true
+		r.mu.Unlock()
+		r.probe("gc_moved_entries")
 	case "compact.dropMarker":
+		r.mu.Lock()
+		r.droppedMarkers[string(key)] = append(r.droppedMarkers[string(key)], a)
+		r.mu.Unlock()
 		r.probe("tombstone_dropped")
 		r.logf("compaction dropped delete/expired marker %q@%d", key, a)
 	case "compact.discardTs":
@@ -418,6 +452,7 @@ func (r *Run) clientLoop(cl *clientState) {
 		r.stopExtras(cl)
 		for s := range cl.slots {
 			if ts := cl.slots[s]; ts != nil {
+				ts.releaseHeld()
 				ts.txn.Discard()
 				cl.slots[s] = nil
 			}
@@ -450,6 +485,7 @@ func (r *Run) doOp(cl *clientState, idx int, op *Op) {
 		r.opCommit(cl, idx, op)
 	case "discard":
 		if ts := cl.slots[op.S]; ts != nil {
+			ts.releaseHeld()
 			ts.txn.Discard()
 			cl.slots[op.S] = nil
 			r.logf("c%d discard s%d", cl.id, op.S)
@@ -666,19 +702,26 @@ func descW(w WriteRec) string {
 }
 
 func (r *Run) compareRead(what string, cl *clientState, key []byte, readTs uint64, wantFound bool, want *Version, o observed) {
+	if len(r.drops) > 0 && r.dropTouches(string(key)) {
+		// DropPrefix/DropAll are documented as not safe against concurrent reads of
+		// the dropped range, and a transaction that began before the drop may see
+		// either state: reads of dropped ranges are checked by the drop op itself.
+		r.probe("read_of_dropped_range_skipped")
+		return
+	}
 	if wantFound != o.found {
 		w := "<absent>"
 		if wantFound {
 			w = want.String()
 		}
-		r.violate([]string{"C01", "C03", "C12", "C15", "C33"}, "snapshot-read", "c%d %s(%q)@%d: model says %s, badger returned %v", cl.id, what, key, readTs, w, o)
+		r.violate([]string{"C01", "C03", "C12", "C15", "C33", "C29", "C37"}, "snapshot-read", "c%d %s(%q)@%d: model says %s, badger returned %v", cl.id, what, key, readTs, w, o)
 		return
 	}
 	if !o.found {
 		return
 	}
 	if !bytes.Equal(o.val, want.Val) {
-		r.violate([]string{"C01", "C03", "C06", "C12", "C15"}, "snapshot-read", "c%d %s(%q)@%d: model says %s, badger returned %v", cl.id, what, key, readTs, want, o)
+		r.violate([]string{"C01", "C03", "C06", "C12", "C15", "C29", "C37"}, "snapshot-read", "c%d %s(%q)@%d: model says %s, badger returned %v", cl.id, what, key, readTs, want, o)
 		return
 	}
 	if o.um != want.UM || o.exp != want.Exp || o.ver != want.Ts || o.disc != want.Disc {
@@ -729,6 +772,7 @@ func (r *Run) opCommit(cl *clientState, idx int, op *Op) {
 		return
 	}
 	cl.slots[op.S] = nil
+	ts.releaseHeld()
 	pc := &pendingCommit{opIdx: idx, readTs: ts.readTs}
 	keys := make([]string, 0, len(ts.pending))
 	for k := range ts.pending {
@@ -888,6 +932,12 @@ func keysOf(m map[string]bool) []string {
 func (r *Run) allowCommitError(err error) bool {
 	// a commit rejected by the size limits is legal (C03: it leaves no trace,
 	// which the model enforces through the commitFailed event)
+	if errors.Is(err, badger.ErrBlockedWrites) {
+		r.mu.Lock()
+		n := len(r.drops)
+		r.mu.Unlock()
+		return n > 0 // writes are rejected while a drop has them blocked
+	}
 	return errors.Is(err, badger.ErrTxnTooBig)
 }
 
@@ -1066,6 +1116,12 @@ func (r *Run) opIter(cl *clientState, idx int, op *Op) {
 		want := r.expectedIter(ts, it, pend, sinceTs, ph.seek, ph.rewind, tnow)
 		var got []expItem
 		n := 0
+		r.mu.Lock()
+		hasDrops := len(r.drops) > 0
+		r.mu.Unlock()
+		if hasDrops {
+			ph.max = 0 // dropped ranges are filtered out below: an early stop would cut at the wrong item
+		}
 		for ; bi.Valid(); bi.Next() {
 			if ph.max > 0 && n >= ph.max {
 				break
@@ -1088,6 +1144,11 @@ func (r *Run) opIter(cl *clientState, idx int, op *Op) {
 			}
 			got = append(got, g)
 		}
+		if len(r.drops) > 0 {
+			// ranges touched by a DropPrefix/DropAll are checked by the drop op itself
+			want = r.filterDropped(want)
+			got = r.filterDropped(got)
+		}
 		relaxed := r.c.Cfg.NumCompactors > 0 && (it.AllV || it.KeyIter >= 0)
 		if ph.max > 0 && len(want) > ph.max && !relaxed {
 			want = want[:ph.max]
@@ -1101,7 +1162,7 @@ func (r *Run) opIter(cl *clientState, idx int, op *Op) {
 			msg = diffIter(want, got, ts.readTs)
 		}
 		if msg != "" {
-			props := []string{"C05", "C01"}
+			props := []string{"C05", "C01", "C12", "C15", "C29", "C33", "C37"}
 			if len(pend) > 0 {
 				props = append(props, "C04")
 			}
@@ -1112,6 +1173,16 @@ func (r *Run) opIter(cl *clientState, idx int, op *Op) {
 			r.stats.NonTrivial = true
 		}
 	}
+}
+
+func (r *Run) filterDropped(xs []expItem) []expItem {
+	var out []expItem
+	for _, x := range xs {
+		if !r.dropTouches(x.Key) {
+			out = append(out, x)
+		}
+	}
+	return out
 }
 
 func diffIter(want, got []expItem, readTs uint64) string {
@@ -1264,7 +1335,7 @@ func executeWith(t *testing.T, c *Case, prof *Profile, keepHist bool, pre func(*
 		return
 	}
 	defer os.RemoveAll(dir)
-	r := &Run{c: c, prof: prof, dir: filepath.Join(dir, "d"), model: NewModel(), byGid: map[int64]*clientState{}, inFlight: map[uint64]bool{}, keepHist: keepHist, wms: map[string]*wmState{}, curRec: map[int64]*CommitRec{}, subByGid: map[int64]*extraState{}, seqSeen: map[string]map[uint64]string{}, usedTs: map[uint64]bool{}}
+	r := &Run{c: c, prof: prof, dir: filepath.Join(dir, "d"), model: NewModel(), byGid: map[int64]*clientState{}, inFlight: map[uint64]bool{}, keepHist: keepHist, wms: map[string]*wmState{}, curRec: map[int64]*CommitRec{}, subByGid: map[int64]*extraState{}, seqSeen: map[string]map[uint64]string{}, usedTs: map[uint64]bool{}, gcMoved: map[string]map[uint64]bool{}, droppedMarkers: map[string][]uint64{}}
 	r.vdir = r.dir
 	if c.Cfg.SeparateValueDir {
 		r.vdir = filepath.Join(dir, "v")
@@ -1425,6 +1496,21 @@ func (r *Run) bubble() {
 		if r.viol == nil {
 			r.finalChecks()
 		}
+		if dk := os.Getenv("VERIF_DEBUG_KEY"); dk != "" && r.db != nil {
+			txn := r.db.NewTransaction(false)
+			o := badger.DefaultIteratorOptions
+			o.AllVersions = true
+			it := txn.NewKeyIterator([]byte(dk), o)
+			for it.Rewind(); it.Valid(); it.Next() {
+				v, _ := it.Item().ValueCopy(nil)
+				fmt.Fprintf(os.Stderr, "DEBUGKEY %q@%d deleted=%v val=%s\n", dk, it.Item().Version(), it.Item().IsDeletedOrExpired(), short(v))
+			}
+			it.Close()
+			txn.Discard()
+			for _, t := range r.db.Tables() {
+				fmt.Fprintf(os.Stderr, "DEBUGKEY table %d L%d [%q@%d .. %q@%d] keys=%d\n", t.ID, t.Level, y.ParseKey(t.Left), y.ParseTs(t.Left), y.ParseKey(t.Right), y.ParseTs(t.Right), t.KeyCount)
+			}
+		}
 		e.Point("client.op")
 		r.setPhase("close")
 		closeErr = r.db.Close()
@@ -1489,6 +1575,9 @@ func (r *Run) prefill() {
 	vsz := int(maxBatch / 3)
 	if int64(vsz) >= cfg.ValueThreshold {
 		vsz = int(cfg.ValueThreshold) - 1
+	}
+	if cfg.PrefillVlog {
+		vsz = int(cfg.ValueThreshold) + 24 // values go to the value log
 	}
 	if vsz > 1000 {
 		vsz = 1000
